@@ -98,6 +98,49 @@ Proof.
   - inversion C; subst. eauto.
 Qed.
 
+(* ---------- end to end, for a stored entry.
+   For EVERY name (up to 65535 bytes), every set of options selecting Stored without encryption / large_file (any
+   permissions, any DOS-representable time), EVERY content up to 2^32-1 bytes, every compressor and every checksum
+   function with 32-bit values:  the writer model's  start_file; write_all; finish  on a well-behaved sink succeed, and
+   -- unless the bytes in front of a plain end record look like a ZIP64 locator (finding D22) -- the reader model's
+   open on the returned bytes yields exactly one entry, offset 0, empty comment; opening it by index succeeds; the
+   entry reader DENOTES the content (so by C09_complete_run every completed read, under every schedule of buffer
+   sizes including zero-length reads, returns exactly the content, and chunking is irrelevant); raw name, decoded
+   name, method, sizes and CRC are the written ones.
+   The ingredients (start_file_stored, write_stored, finish_file_stored, laid_out_grow, read_laid_out,
+   finish_then_open) are stated for an arbitrary prefix of earlier entries, so the k-entry statement is an induction
+   over them; it is not spelled out here. *)
+From ZipV Require Import Proofs.StreamProofs Proofs.EntryRead Proofs.WriterEntry Proofs.StoredRoundtrip.
+Theorem C01_stored_single_roundtrip : forall (kdf : bytes -> bytes -> N -> bytes) (blk mac : bytes -> bytes -> bytes) enc crc, (forall x, crc x < 2 ^ 32) ->
+  forall name o content,
+  len name <= 65535 -> stored_opts o -> dos_ok (o_time o) -> len content <= ZIP64_BYTES_THR ->
+  exists s1 s2 s3 data b dir,
+    start_file enc crc (new_writer []) name o = (s1, Ok tt) /\
+    zw_write_all s1 content = (s2, Ok tt) /\
+    finish enc crc s2 = (s3, Ok data) /\
+    data = b ++ dir ++ concat (end_records 1 (len b) (len dir) []) /\
+    ((needs64 1 (len dir) (len b) = false -> no_locator_before (b ++ dir)) ->
+     exists g ds c,
+       open data = Ok {| ar_data := data; ar_files := [g]; ar_offset := 0; ar_comment := [] |} /\
+       by_index_opt kdf {| ar_data := data; ar_files := [g]; ar_offset := 0; ar_comment := [] |} 0 None = Ok (Some (g, ds, c)) /\
+       plain_inv c /\ crc_den crc plain_den (make_stored g c) = Good content /\
+       f_name_raw g = name /\ f_name g = decode_text (negb (is_ascii name)) name /\
+       f_method g = CompressionMethod_Stored /\ f_usize g = len content /\ f_csize g = len content /\ f_crc g = crc content).
+Proof. exact stored_single_roundtrip. Qed.
+Print Assumptions C01_stored_single_roundtrip.
+
+(* what "denotes" buys: any schedule of reads that reaches a clean end of file has returned exactly the content *)
+Theorem C01_denoted_is_read : forall blk mac crc (s : stored_st) content bufs outs sf k n,
+  plain_inv (k_inner s) -> crc_den crc plain_den s = Good content ->
+  run_reads (zipfile_read blk mac crc) s bufs = (outs, sf) ->
+  nth_error bufs k = Some n -> 0 < n -> nth_error outs k = Some (Ok []) ->
+  oks (firstn k outs) = content.
+Proof.
+  intros blk mac crc s content bufs outs sf k n Hi Hd Hr Hk Hn Ho.
+  exact (proj1 (complete_run (zipfile_read blk mac crc) _ _ (zipfile_streams (fun _ _ _ => []) blk mac crc) bufs s content outs sf k n Hi Hd Hr Hk Hn Ho)).
+Qed.
+Print Assumptions C01_denoted_is_read.
+
 (* ---------- the known finding D22: the hypothesis no_locator_before is not idle.
    A one-entry archive whose name ends in "PK\006\007" + 16 bytes: the writer model finishes it, the reader model
    refuses it (it takes the name's tail for a ZIP64 locator).  The same program on the crate behaves the same
